@@ -195,6 +195,12 @@ Section Solve.
     let right := fmax O xold (xold + h) in
     (t >=? left - L L1em12) && (t <=? right + L L1em12).
 
+  Definition seg_contains (t : F) (sg : seg (F:=F)) : bool :=
+    let '(_, xold, h) := sg in
+    let left := fmin O xold (xold + h) in
+    let right := fmax O xold (xold + h) in
+    (t >=? left) && (t <=? right).
+
   Definition t_span (segs : list (seg (F:=F))) : option (F * F) :=
     match segs with
     | [] => None
@@ -212,7 +218,7 @@ Section Solve.
         | Some (st, en) =>
             let lo := fmin O st en in let hi := fmax O st en in
             if (t <? lo) || (t >? hi) then SolOutOfRange
-            else match find (seg_in t) segs with
+            else match (match find (seg_contains t) segs with Some g => Some g | None => find (seg_in t) segs end) with
                  | Some (cont, xold, h) => SolOk (interp_fn m cont xold h t n)
                  | None => SolOutOfRange
                  end
